@@ -43,7 +43,7 @@ def run(ck, tier, seed):
     vlib.absorb(ck, h2)
     if h2.summary:
         ck.traces += h2.summary["extra"]["calls"]
-        ck.extra["impl"]["utfcount_structured"] = dict(h2.summary["extra"], model_drift=h2.summary["drift"])
+        ck.extra.setdefault("impl", {})["utfcount_structured"] = dict(h2.summary["extra"], model_drift=h2.summary["drift"])
     for s in r.emitted[500:503]:
         ck.sample({"module": "Utf", "enc": s["enc"], "buf": s["buf"], "endGiven": s["endGiven"], "wf": s["wf"], "nwf": s["nwf"]})
     # second sentence: encoding equivalence + U+FFFD resynchronisation on shaped segments
